@@ -50,6 +50,9 @@ def step (d : Unit) (line : String) : Unit × String :=
       let same := c.res.isNone && s.res.isNone && c.mapped == s.mapped
       (d, s!"{showRes "c" c} {showRes "s" s} same={if same then 1 else 0}")
     | none => (d, "bad-op")
+  | ["cliq", "file"] =>
+    -- the client cannot create its queue (the file is already there): establishment fails before anything is sent
+    (d, "c=init-error sent=")
   | "srv" :: t :: ms =>
     match parseTail t, parseMsgs ms with
     | some tl, some msgs =>
